@@ -71,7 +71,7 @@ def parseOp (s : String) : Option Op :=
   | _ => none
 
 def showState {Z : Inflater} (r : Reader Z) : String :=
-  s!"f:{showPhase r.p.phase},{r.tail.length},{r.p.frags.length},{r.p.fragCount},{r.p.toRead},{r.p.partialMsg.length},{r.p.msgs.length},{r.p.qsize},{showBool r.p.paused},{showErr r.exc}"
+  s!"f:{showPhase r.p.k.phase},{r.tail.length},{r.p.k.frags.length},{r.p.fragCount},{r.p.k.toRead},{r.p.k.partialMsg.length},{r.p.k.msgs.length},{r.p.k.qsize},{showBool r.p.paused},{showErr r.exc}"
 
 def runOps {Z : Inflater} (c : Cfg) : Reader Z → List Op → List String → Reader Z × List String
   | r, [], acc => (r, acc.reverse)
@@ -81,7 +81,7 @@ def runOps {Z : Inflater} (c : Cfg) : Reader Z → List Op → List String → R
   | r, .read :: ops, acc =>
     let (r', res) := read c r
     let s := match res with
-      | .msg m => "r:" ++ showMsg m ++ s!",{r'.p.qsize},{showBool r'.p.paused}"
+      | .msg m => "r:" ++ showMsg m ++ s!",{r'.p.k.qsize},{showBool r'.p.paused}"
       | .raised e => "r:raise:" ++ showErr (some e)
       | .empty => "r:empty"
     runOps c r' ops (s :: acc)
@@ -103,7 +103,7 @@ def handle : List String → String
       let c : Cfg := { maxMsgSize := mx, compress := parseBool cp, decodeText := parseBool dt, queueLimit := ql }
       let Z := oracle zs
       let (r, outs) := runOps (Z := Z) c {} ops []
-      " ".intercalate outs ++ " M " ++ showMsgs r.p.msgs ++ " Z " ++ showCalls r.p.z.calls
+      " ".intercalate outs ++ " M " ++ showMsgs r.p.k.msgs ++ " Z " ++ showCalls r.p.k.z.calls
     | _, _, _, _ => "bad-op"
   | ["spec", mx, cp, dt, zs, h] =>
     match mx.toNat?, parseZ zs, parseHex h with
